@@ -40,6 +40,7 @@ def s_basic(ws):
     p.add_data_to_group([d1, d5], "PG")
     q = Points.create(ws, name="Q", vertices=np.arange(6.0).reshape(2, 3) + 50)
     q.add_data({"qf": {"values": np.array([5.0, 6.0])}})
+    Points.create(ws, name="Bare", parent=g, vertices=np.arange(3.0).reshape(1, 3))
 
 
 def s_tree(ws):
